@@ -47,6 +47,19 @@ Theorem C06_items_array_3d : forall i0 i1 j0 j1 k0 k1 i j k : Z,
 Proof. exact flat_index_3d. Qed.
 Print Assumptions C06_items_array_3d.
 
+(* LatticeSpec.__getitem__ with a tuple reads the array with the LAST index
+   fastest ((i-i0)*n_j*n_k + (j-j0)*n_k + (k-k0)), the opposite of items();
+   the converter never calls it (develop_lattice iterates items()), so this
+   inconsistency of the class is not observable in a converted deck *)
+Theorem C06_getitem_tuple_last_fastest :
+  (forall (bs : bounds) (spec arg : list Z), in_ranges arg bs ->
+     spec_getitem_tuple bs spec arg = py_list_get spec (last_fastest_index bs arg)) /\
+  (exists bs spec idx u v,
+     items bs spec = Ok (combine (indices bs) spec) /\ In (idx, u) (combine (indices bs) spec) /\
+     spec_getitem_tuple bs spec idx = Ok v /\ u <> v).
+Proof. split; [exact getitem_tuple_last_fastest|exact getitem_tuple_disagrees_with_items]. Qed.
+Print Assumptions C06_getitem_tuple_last_fastest.
+
 (* FILL=n on a lattice cell: an error without --lattice; with --lattice ranges
    one array entry n per element of the ranges *)
 Theorem C06_homogeneous_fill : forall (fb : option bounds) (n lat : Z) (bs : bounds),
